@@ -3,6 +3,10 @@
 # Confirms in a scratch worktree of /repo HEAD: demo passes on clean code, fails with the patch, and the existing suite
 # (73 tests) still passes with the patch. Writes <mutant-dir>/confirm.json. Shares one target dir to save build time.
 d="$1"; name="$2"
+# one confirmation at a time: the target dir is shared, concurrent builds would link each other's libraries
+mkdir -p /tmp/cw
+exec 9>/tmp/cw/confirm.lock
+flock 9
 wt=/tmp/cw/$name
 export CARGO_TARGET_DIR=/tmp/cw/target CARGO_NET_OFFLINE=true
 mkdir -p /tmp/cw
@@ -29,9 +33,14 @@ git stash -q 2>/dev/null; git stash pop -q 2>/dev/null
 demofiles=$(grep -E '^\+\+\+ b/' "$d/demo.diff" | sed 's#+++ b/##' | grep '^tests/' )
 for f in $demofiles; do rm -f "$f"; done
 if grep -qE '^\+\+\+ b/src/' "$d/demo.diff"; then git apply -R "$d/demo.diff" 2>/dev/null || true; fi
+suite() {
 out=$(timeout 1500 cargo test --workspace --no-fail-fast --offline 2>&1)
 p=$(echo "$out" | grep -E "^test result" | sed -E 's/.* ([0-9]+) passed.*/\1/' | paste -sd+ | bc)
 f=$(echo "$out" | grep -E "^test result" | sed -E 's/.* ([0-9]+) failed.*/\1/' | paste -sd+ | bc)
+}
+suite
+# tests/udp_roundtrip.rs binds fixed ports and collides with other suite runs on this host: retry once before believing a failure
+if [ "$f" != "0" ]; then sleep 5; suite; fi
 st=confirmed
 [ "$rc_clean" != "0" ] && st=demo-fails-on-clean
 [ "$rc_mut" == "0" ] && st=demo-passes-on-mutant
